@@ -377,6 +377,10 @@ func (vc *FnVC) siteAsserts(name string, ord int, pre *Mem, args []TV, pos token
 		}
 		tv, err := env.tr(ca.C.E)
 		if err != nil {
+			if vc.lenient {
+				vc.skipped = append(vc.skipped, fmt.Sprintf("call %s assert: %v", name, err))
+				continue
+			}
 			panic(unsupported{fmt.Sprintf("call %s assert: %v", name, err)})
 		}
 		oname := fmt.Sprintf("assert@%s#%d", name, ord)
@@ -409,6 +413,10 @@ func (vc *FnVC) siteAssumes(name string, ord int, args, results []TV) {
 		}
 		tv, err := env.tr(ca.C.E)
 		if err != nil {
+			if vc.lenient {
+				vc.skipped = append(vc.skipped, fmt.Sprintf("call %s assume: %v", name, err))
+				continue
+			}
 			panic(unsupported{fmt.Sprintf("call %s assume: %v", name, err)})
 		}
 		vc.assume(vc.b(), tv.t)
